@@ -349,6 +349,40 @@ def _fetch_url_attempts(tree: ast.Module) -> tuple[bool, bool, bool]:
     return v1, retry_shape, v2
 
 
+def _validation_stateless(tree: ast.Module) -> bool:
+    """A validator verdict is used for the one request it was asked for and nothing of it is kept: `_validate_url(url, validator)`
+    touches only its arguments and locals, the pool (`_FetchPool`, the only state that outlives a fetch) has no field beyond
+    lock / loop / thread / session, and `FetchConfig` has no mutable field beyond that pool."""
+    pool_fields: list[str] = []
+    cfg_private: list[str] = []
+    for n in ast.walk(tree):
+        if isinstance(n, ast.ClassDef) and n.name == "_FetchPool":
+            pool_fields = [st.target.id for st in n.body if isinstance(st, ast.AnnAssign) and isinstance(st.target, ast.Name)]
+        if isinstance(n, ast.ClassDef) and n.name == "FetchConfig":
+            cfg_private = [st.target.id for st in n.body if isinstance(st, ast.AnnAssign) and isinstance(st.target, ast.Name)
+                           and st.target.id.startswith("_")]
+    fn = _func(tree, "_validate_url")
+    a = fn.args  # type: ignore[attr-defined]
+    params_ok = [x.arg for x in a.args] == ["url", "validator"] and not a.kwonlyargs and a.vararg is None and a.kwarg is None
+    allowed = {"url", "validator", "exc", "message", "parsed", "secrets", "secret", "value", "_", "str", "urlparse", "parse_qsl",
+               "redact_url", "ValueError", "Exception", "Callable", "None"}
+    names_ok = all(n.id in allowed for n in ast.walk(fn) if isinstance(n, ast.Name))
+    no_mutation = not any(
+        isinstance(n, (ast.Global, ast.Nonlocal))
+        or (isinstance(n, (ast.Attribute, ast.Subscript)) and isinstance(n.ctx, (ast.Store, ast.Del)))
+        or (isinstance(n, ast.Call) and isinstance(n.func, ast.Attribute)
+            and n.func.attr in ("add", "update", "append", "extend", "setdefault", "__setitem__", "insert", "discard", "remove"))
+        for n in ast.walk(fn)
+    )
+    module_state = [ast.unparse(n.targets[0]) for n in tree.body if isinstance(n, ast.Assign)]
+    return (
+        pool_fields == ["lock", "loop", "thread", "session"]
+        and cfg_private == ["_pool"]
+        and params_ok and names_ok and no_mutation
+        and sorted(module_state) == ["_REDIRECT_STATUSES", "__all__", "_logger"]
+    )
+
+
 def _inflate_limits() -> dict[str, object]:
     """`vgi_rpc/_codec.py`: the per-call output limit the two bounded decoders pass to the library,
     `min(_DECOMPRESS_CHUNK_BYTES, max_output_size - total + K)`, and their cap guards."""
@@ -599,6 +633,9 @@ def retryRecognised : Bool := {b(retry_ok)}
 /-- the first attempt / the retry hand the caller's `url_validator` to `_fetch_with_probe` -/
 def firstAttemptValidated : Bool := {b(first_validated)}
 def retryValidated : Bool := {b(retry_validated)}
+/-- no validator verdict outlives the request it was asked for: `_validate_url(url, validator)` only touches its arguments,
+    `_FetchPool` = lock / loop / thread / session, `FetchConfig`'s only private field is that pool, no other module state -/
+def validationStateless : Bool := {b(_validation_stateless(tree))}
 /-- `redact_url` = `urlunparse((scheme, rendered_host, path, "", "", ""))` with the host/port rendering the model mirrors -/
 def redactRecognised : Bool := {b(_redact_shape(tree))}
 
